@@ -1,8 +1,9 @@
 SPECIFICATION Spec
 CONSTANTS
-  MaxCalls = 3
-  AsImplemented = FALSE
-INVARIANTS NoUseLeft SuccsLive Complete
+  Dev = {}
+  MaxCalls = 2
+  MaxOps = 5
+INVARIANTS Complete NoUseLeft SuccsLive WriteLive
 PROPERTIES WriteExact
 VIEW View
 CHECK_DEADLOCK FALSE
